@@ -802,3 +802,6 @@ Proof. intros H r t E P W Ht. destruct (H r t E P W Ht) as (r' & x & F & Po & ->
 Lemma bindM_assoc {A B C} (m : M A) (f : A -> M B) (g : B -> M C) r :
   bindM (bindM m f) g r = bindM m (fun x => bindM (f x) g) r.
 Proof. unfold bindM. destruct (m r) as [[a r']|e|]; reflexivity. Qed.
+
+Lemma runsN_eq {A} n (T : bytes -> Prop) (m m' : M A) s b b' v : (forall r, m r = m' r) -> runsN n T m' s b b' v -> runsN n T m s b b' v.
+Proof. intros Hm H r t E P W L Ht. rewrite Hm. apply H; assumption. Qed.
